@@ -36,6 +36,34 @@ func genCase(t *rapid.T) Case {
 		Layouts: gen.Layouts4, Floats: floats, MaxDepth: 4, MaxParts: 4, MaxPts: 5,
 		Valid: true, FixEmptyCollections: true, FixedCollectionPct: 50, PEmpty: 25, LongPct: 1, LongMax: 200, SRID: gen.SRIDs,
 	})
+	// a ring closed by a point that equals its first point but is not a copy of it: zeros
+	// of the other sign
+	g.Walk(func(x *model.G) {
+		flip := func(r [][]model.F) {
+			if len(r) < 4 {
+				return
+			}
+			first, last := r[0], append([]model.F{}, r[len(r)-1]...)
+			for i := range last {
+				if first[i].V() == 0 && last[i].V() == 0 && rapid.Bool().Draw(t, "flipzero") {
+					last[i] = model.Of(-first[i].V())
+				}
+			}
+			r[len(r)-1] = last
+		}
+		switch x.Kind {
+		case model.Polygon:
+			for _, r := range x.C2 {
+				flip(r)
+			}
+		case model.MultiPolygon:
+			for _, p := range x.C3 {
+				for _, r := range p {
+					flip(r)
+				}
+			}
+		}
+	})
 	text, err := refwkt.Write(g, func(n int, label string) int { return rapid.IntRange(0, n-1).Draw(t, label) })
 	if err != nil {
 		panic(err)
@@ -169,6 +197,16 @@ func prop(c Case) error {
 		return fmt.Errorf("the geometry returned by wkt.Unmarshal is ill formed after later parses: %v", err)
 	}
 	if err := same("the geometry returned by Unmarshal, looked at again after later parses", g, bm2); err != nil {
+		return err
+	}
+	// ... and the caller may do to it what it likes (every ordinate overwritten, EMPTY
+	// points given coordinates, SRIDs changed): the same text parses as before
+	model.Spoil(back)
+	if again, err := wkt.Unmarshal(text); err != nil {
+		return fmt.Errorf("wkt.Unmarshal of the same text after the caller overwrote the geometry parsed from it before: %v", err)
+	} else if am, err := model.FromGeom(again); err != nil {
+		return fmt.Errorf("parsed again after the caller overwrote the earlier result: %v", err)
+	} else if err := same("the same text, parsed again after the caller overwrote the geometry parsed from it before,", g, am); err != nil {
 		return err
 	}
 	// the same geometry object as a member in several places of a collection tree
